@@ -18,8 +18,10 @@
 static void *rest_src(KdCtx *k, int w, int h, int border, int es, int maxv, int *stride) {
     int fw = w + 2 * border, fh = h + 2 * border;
     *stride = kstride(k, fw + 16, 1);
-    /* a picture: rows continue to the left/right, more rows exist above/below */
-    kpad(k, 128 + 2 * (size_t)*stride * (size_t)es, 128 + 2 * (size_t)*stride * (size_t)es);
+    /* a picture: rows continue to the left/right, more rows exist above/below (restoration frame
+     * border).  The AVX2 integral-image code works on 8x8 groups and touches up to 7 rows / columns
+     * past the 3-sample border; their content must not matter. */
+    kpad(k, 128 + 8 * (size_t)*stride * (size_t)es, 128 + 8 * (size_t)*stride * (size_t)es);
     uint8_t *b = (uint8_t *)kb2(k, fw, fh, *stride, es, 64, kr_range(k, 0, 15), 0);
     kfill2(k, b, fw, fh, *stride, es, 0, maxv);
     return b + (size_t)(border * *stride + border) * (size_t)es;
